@@ -1,6 +1,7 @@
 package main
 
 import (
+	"math/big"
 	"encoding/json"
 	"fmt"
 	"strings"
@@ -70,4 +71,66 @@ func listQueries(st store.Momentum) (lines []string, panicked string) {
 		lines = append(lines, x.name+" = "+strings.ReplaceAll(out, "\n", " "))
 	}
 	return lines, panicked
+}
+
+// pillarWeightsMonitor (C05): the weight of every registered, active pillar as ComputePillarDelegations reports it (the
+// input of the election) against an independent computation from the pillar contract's storage and the ledger: the sum of
+// the ZNN balances of the accounts whose delegation entry names that pillar. Delegations to revoked or unknown pillars
+// count for nobody. The real function is asked three times (its loops run over Go maps). Returns "" or what differs.
+func pillarWeightsMonitor(st store.Momentum) string {
+	ps := st.GetAccountStore(types.PillarContract).Storage()
+	active, err := definition.GetPillarsList(ps, true, definition.AnyPillarType)
+	if err != nil {
+		return ""
+	}
+	dels, err := definition.GetDelegationsList(ps)
+	if err != nil {
+		return ""
+	}
+	want := map[string]*big.Int{}
+	prod := map[string]types.Address{}
+	for _, p := range active {
+		want[p.Name] = new(big.Int)
+		prod[p.Name] = p.BlockProducingAddress
+	}
+	toRevoked := 0
+	for _, d := range dels {
+		w, ok := want[d.Name]
+		if !ok {
+			toRevoked++
+			continue
+		}
+		bal, err := st.GetAccountStore(d.Backer).GetBalance(types.ZnnTokenStandard)
+		if err != nil {
+			return ""
+		}
+		w.Add(w, bal)
+	}
+	for round := 0; round < 3; round++ {
+		var got []*types.PillarDelegationDetail
+		var gerr error
+		if p := safely(func() { got, gerr = st.ComputePillarDelegations() }); p != "" {
+			return "ComputePillarDelegations panics: " + firstLine(p)
+		}
+		if gerr != nil {
+			return ""
+		}
+		if len(got) != len(want) {
+			return fmt.Sprintf("ComputePillarDelegations lists %d pillars, the pillar contract holds %d active registrations", len(got), len(want))
+		}
+		for _, d := range got {
+			w, ok := want[d.Name]
+			if !ok {
+				return fmt.Sprintf("ComputePillarDelegations lists pillar %q which is not an active registration", d.Name)
+			}
+			if d.Weight.Cmp(w) != 0 || d.Producing != prod[d.Name] {
+				return fmt.Sprintf("pillar %q: ComputePillarDelegations gives weight %s producer %s; the balances of the accounts delegating to it add up to %s, registered producer %s (%d delegation entries name pillars that are not active)",
+					d.Name, d.Weight, addrName(d.Producing), w, addrName(prod[d.Name]), toRevoked)
+			}
+		}
+	}
+	if toRevoked > 0 {
+		return "ok-with-delegations-to-inactive-pillars"
+	}
+	return ""
 }
